@@ -303,6 +303,106 @@ func searchRoundTrip(c *vkit.Collector, rng *vkit.Rng, budget int, o *oracle) {
 	}
 }
 
+// poleBound: what "within rounding" means for the Mercator round trip at colatitude d (radians from the
+// nearer pole). y = atanh(sin lat) is formed from 1 -+ sin(lat) = d^2/2, so one ulp of sin(lat) moves d by
+// ~1.1e-16/d; below d ~ 1.5e-8 the point maps to Y = +-Inf and comes back as the pole itself.
+func poleBound(d float64) float64 {
+	return math.Max(1e-12, math.Min(1e-15/math.Max(d, 1e-300), 5e-8))
+}
+
+func badPoint(p s2.Point) bool {
+	n := p.Norm2()
+	return math.IsNaN(n) || math.Abs(n-1) > 1e-14
+}
+
+// searchPoles: the round trip at and near both poles, and Unproject of planar points whose y is +-Inf or so
+// large that exp overflows/underflows (Mercator), at scales 180, pi, 1e6 and others, both projections.
+func searchPoles(c *vkit.Collector, rng *vkit.Rng, budget int, o *oracle) {
+	scales := []float64{180, math.Pi, 1e6, 1, math.Ldexp(1, 30)}
+	for _, merc := range []bool{false, true} {
+		for _, scale := range scales {
+			var pr s2.Projection
+			if merc {
+				pr = s2.NewMercatorProjection(scale)
+			} else {
+				pr = s2.NewPlateCarreeProjection(scale)
+			}
+			// ---- sphere -> plane -> sphere at and near the poles ----
+			for _, sgn := range []float64{1, -1} {
+				ds := []float64{0}
+				for e := 6; e <= 15; e++ {
+					ds = append(ds, math.Pow(10, -float64(e)), math.Pow(10, -float64(e))*rng.Range(1, 10))
+				}
+				for r := 0; r < budget; r++ {
+					ds = append(ds, math.Pow(10, -rng.Range(5, 9)), math.Ldexp(1, -26)*rng.Range(0.5, 2))
+				}
+				for _, d := range ds {
+					lng := rng.Range(-math.Pi, math.Pi)
+					p := s2.Point{Vector: r3.Vector{X: math.Sin(d) * math.Cos(lng), Y: math.Sin(d) * math.Sin(lng), Z: sgn * math.Cos(d)}}
+					if d == 0 {
+						p = s2.Point{Vector: r3.Vector{X: 0, Y: 0, Z: sgn}}
+					}
+					c.Class("roundtrip:pole")
+					c.Eval(fmt.Sprintf("pole:%s:%g:%g:%g", projName(merc), scale, sgn, d), true)
+					q := pr.Project(p)
+					back := pr.Unproject(q)
+					rep := map[string]interface{}{"projection": projName(merc), "scale": scale, "p": []float64{p.X, p.Y, p.Z}, "p_hex": hv(p),
+						"colatitude": d, "projected": []string{fmt.Sprint(q.X), fmt.Sprint(q.Y)}, "back": []string{fmt.Sprint(back.X), fmt.Sprint(back.Y), fmt.Sprint(back.Z)}}
+					if badPoint(back) {
+						c.Violate("Projection.roundtrip", fmt.Sprintf("Unproject(Project(p)) is not a unit-length point (%v) for p %g rad from a pole (%s, scale %g)", back.Vector, d, projName(merc), scale), rep)
+						continue
+					}
+					bound := 1e-14
+					if merc {
+						bound = poleBound(d)
+					}
+					if e := vang(back.Vector, p.Vector); e > bound {
+						c.Violate("Projection.roundtrip", fmt.Sprintf("Unproject(Project(p)) is %g rad from p, %g rad from a pole (%s, scale %g; rounding allows %g)", e, d, projName(merc), scale, bound), rep)
+					}
+				}
+			}
+			// ---- plane -> sphere for y at the poles and beyond the exp range ----
+			ys := []float64{scale / 2, -scale / 2}
+			if merc {
+				ys = []float64{math.Inf(1), math.Inf(-1), math.MaxFloat64, -math.MaxFloat64, 1e300, -1e300}
+				for _, yp := range []float64{354.9, 355, 356, 400, 709.7 / 2, 709.8 / 2, 710.0 / 2, 745.0 / 2, 746.0 / 2, 18, 19, 20, 36.7, 37, 100, rng.Range(15, 400)} {
+					ys = append(ys, yp*scale/math.Pi, -yp*scale/math.Pi)
+				}
+			}
+			for _, y := range ys {
+				pt := r2.Point{X: scale * rng.Range(-1, 1), Y: y}
+				c.Class("unproject:extreme-y")
+				c.Eval(fmt.Sprintf("extremeY:%s:%g:%g", projName(merc), scale, y), true)
+				u := pr.Unproject(pt)
+				rep := map[string]interface{}{"projection": projName(merc), "scale": scale, "q": []string{fmt.Sprint(pt.X), fmt.Sprint(pt.Y)},
+					"q_hex": []string{hx(pt.X), hx(pt.Y)}, "result": []string{fmt.Sprint(u.X), fmt.Sprint(u.Y), fmt.Sprint(u.Z)}}
+				if badPoint(u) {
+					c.Violate("Projection.Unproject", fmt.Sprintf("Unproject((x,%g)) is not a unit-length point: %v (%s, scale %g)", y, u.Vector, projName(merc), scale), rep)
+					continue
+				}
+				want := myUnproject(merc, scale, pt)
+				d := math.Acos(math.Min(1, math.Abs(want.Z)))
+				if math.Abs(want.Z) > 0.5 {
+					d = math.Asin(math.Min(1, math.Hypot(want.X, want.Y)))
+				}
+				bound := 1e-14
+				if merc {
+					bound = poleBound(d)
+				}
+				if math.IsInf(y, 0) || math.Abs(y) >= 400*scale/math.Pi {
+					// exp overflows/underflows: the answer is the pole itself (up to cos(pi/2) = 6e-17)
+					bound = 1e-15
+				}
+				if e := vang(u.Vector, want); e > bound/2 {
+					o.add(pending{req: map[string]interface{}{"t": "unproj", "proj": projName(merc), "scale": hx(scale), "x": []string{hx(pt.X), hx(pt.Y)}, "p": hv(u)},
+						bound: bound, kind: "Projection.Unproject", desc: fmt.Sprintf("Unproject((x,%g)) is farther from the true point than rounding allows (%s, scale %g)", y, projName(merc), scale),
+						replay: rep, approx: e, exceedsFloat: e > bound})
+				}
+			}
+		}
+	}
+}
+
 func searchSubsample(c *vkit.Collector, rng *vkit.Rng, budget int, o *oracle) {
 	for k := 0; k < 500*budget; k++ {
 		n := rng.Intn(40)
